@@ -71,6 +71,7 @@ pub fn action_texts() -> Vec<String> {
         "say x is 2\n",
         "say x plus 1\n",
         "say x times 2\n",
+        "say x minus 1\nsay x over 2\nsay 5 minus x\n",
         "say x at 0 at 0\n",
         "say x is y\n",
         "say x at 1 is y at 1\n",
